@@ -43,15 +43,16 @@ Theorem C29_store_is_two_maps :
   (forall s id, fst (st_step (snd (st_step s (OpDelete id))) (OpGet id)) = None) /\
   (forall s id id', id <> id' ->
       fst (st_step (snd (st_step s (OpDelete id))) (OpGet id')) = fst (st_step s (OpGet id'))) /\
-  (forall s o, match o with OpStore _ _ | OpGet _ | OpDelete _ => by_type (snd (st_step s o)) = by_type s
-                          | _ => by_id (snd (st_step s o)) = by_id s end).
+  (forall s o, match o with OpStore _ _ | OpGet _ | OpDelete _ | OpDeleteIf _ _ => by_type (snd (st_step s o)) = by_type s
+                          | _ => by_id (snd (st_step s o)) = by_id s end) /\
+  (* DeleteIf (repair ae1425c): removes the entry exactly when it holds the given transaction *)
+  (forall s id id' tag,
+      (by_id s !! id = Some tag -> fst (st_step (snd (st_step s (OpDeleteIf id tag))) (OpGet id)) = None) /\
+      (by_id s !! id <> Some tag -> snd (st_step s (OpDeleteIf id tag)) = s) /\
+      (id <> id' -> fst (st_step (snd (st_step s (OpDeleteIf id tag))) (OpGet id')) = fst (st_step s (OpGet id')))).
 Proof.
-  repeat split.
-  - exact st_get_after_store.
-  - exact st_get_other_key.
-  - exact st_get_after_delete.
-  - exact st_delete_other_key.
-  - exact st_spaces_independent.
+  split; [exact st_get_after_store|]. split; [exact st_get_other_key|]. split; [exact st_get_after_delete|].
+  split; [exact st_delete_other_key|]. split; [exact st_spaces_independent|]. exact st_delete_if_laws.
 Qed.
 Print Assumptions C29_store_is_two_maps.
 
